@@ -386,6 +386,8 @@ pub trait Instrumented: Problem<Objective = SingleObjective> + ObjectiveFunction
     fn instr(&self) -> &Instr;
     fn pure_f(&self, s: &Self::Encoding) -> f64;
     fn sol_hash(s: &Self::Encoding) -> u64;
+    /// Another instance of the same problem type (different dimension and domain / matrix).
+    fn sibling(&self) -> Self;
 }
 impl Instrumented for RealP {
     fn instr(&self) -> &Instr {
@@ -396,6 +398,11 @@ impl Instrumented for RealP {
     }
     fn sol_hash(s: &Vec<f64>) -> u64 {
         hash_f64s(s)
+    }
+    fn sibling(&self) -> Self {
+        let mut domain: Vec<Range<f64>> = self.domain.iter().map(|r| (r.start * 13.0 - 7.0)..(r.end * 13.0 + 7.0)).collect();
+        domain.push(-3.0..40.0);
+        RealP::with_domain(domain, self.kind)
     }
 }
 impl Instrumented for BitsP {
@@ -408,6 +415,9 @@ impl Instrumented for BitsP {
     fn sol_hash(s: &Vec<bool>) -> u64 {
         hash_t(s)
     }
+    fn sibling(&self) -> Self {
+        BitsP::new(self.dim + 3)
+    }
 }
 impl Instrumented for TspP {
     fn instr(&self) -> &Instr {
@@ -418,5 +428,8 @@ impl Instrumented for TspP {
     }
     fn sol_hash(s: &Vec<usize>) -> u64 {
         hash_t(s)
+    }
+    fn sibling(&self) -> Self {
+        TspP::generated(self.n + 1, 2, 99)
     }
 }
